@@ -18,6 +18,7 @@ pub fn corpus(format: &str) -> Vec<Doc> {
             d("symbols-all", b"aag 2 1 1 1 0 1 1 1 1\n2\n4 2 4\n4\n2\n3\n1\n4\n5\ni0 a\nl0 b\no0 c\nb0 d\nc0 e\nj0 f\nf0 g\nc\nx\n"),
             d("justice-two", b"aag 2 2 0 0 0 0 0 2 0\n2\n4\n2\n0\n2\n4\n"),
             d("bad-symbol-no-latch", b"aag 1 1 0 0 0 1\n2\n3\nb0 bad\n"),
+            d("justice-gaps", b"aag 1 1 0 0 0 0 0 4 0\n2\n0\n2\n0\n1\n2\n3\n0\nj3 last\n"),
             d("fair-symbols", b"aag 1 1 0 0 0 0 0 0 2\n2\n2\n3\nf1 second\nf0 first\n"),
             d("more-bad-than-vars", b"aag 1 1 0 0 0 3\n2\n2\n3\n0\n"),
         ],
@@ -31,6 +32,8 @@ pub fn corpus(format: &str) -> Vec<Doc> {
             d("three-gates", b"aig 5 2 0 2 3\n10\n7\n\x02\x02\x02\x04\x02\x02i0 a\ni1 b\no1 z\n"),
             d("lf-in-binary", b"aig 12 11 0 1 1\n24\n\x02\x0a"),
             d("bad-symbol-no-latch", b"aig 1 1 0 0 0 1\n3\nb0 bad\n"),
+            d("justice-gaps", b"aig 1 1 0 0 0 0 0 4 0\n0\n2\n0\n1\n2\n3\n0\nj3 last\n"),
+            d("two-byte-delta-then-more", b"aig 102 100 0 1 2\n204\n\x02\xc6\x01\x02\x02o0 out\nc\nx\n"),
             d("constraint-symbols", b"aig 1 1 0 0 0 0 2\n2\n3\nc1 second\nc0 first\nc\ncomment\n"),
         ],
         _ => vec![],
@@ -56,6 +59,10 @@ pub struct Inputs {
 }
 
 pub fn inputs(format: &str, tier: Tier) -> Inputs {
+    inputs_seq(format, tier, 3)
+}
+
+pub fn inputs_seq(format: &str, tier: Tier, seq_len: usize) -> Inputs {
     let corpus = dedup_docs(corpus(format));
     let mut nb = Vec::new();
     for d in &corpus {
@@ -64,7 +71,7 @@ pub fn inputs(format: &str, tier: Tier) -> Inputs {
         }
         nb.extend(single_edit_neighbours(d, &MARKERS));
     }
-    let sequences = dedup_docs(token_sequences(&tokens(format), tier.pick(3, 3)));
+    let sequences = dedup_docs(token_sequences(&tokens(format), seq_len));
     Inputs { corpus, neighbours: dedup_docs(nb), sequences }
 }
 
@@ -81,8 +88,8 @@ impl Inputs {
 /// followed by a little body: this is where `count - 1`, `(I + 1) * 2` and `reserve(count)` live.
 pub fn header_docs(format: &str) -> Vec<Doc> {
     let small = ["0", "1", "2"];
-    let big = ["127", "128", "32767", "2147483647", "4294967295", "4294967296", "9223372036854775807", "9223372036854775808", "18446744073709551614", "18446744073709551615", "18446744073709551616"];
-    let bodies: [&[u8]; 4] = [b"", b"2\n", b"2\n3\n0\n", b"2 3\n1\ni0 x\nb0 y\nc\n"];
+    let big = ["127", "128", "32767", "2147483647", "4294967295", "4294967296", "9223372036854775806", "9223372036854775807", "9223372036854775808", "18446744073709551614", "18446744073709551615", "18446744073709551616"];
+    let bodies: [&[u8]; 5] = [b"", b"2\n", b"0\n", b"2\n3\n0\n", b"2 3\n1\ni0 x\nb0 y\nc\n"];
     let mut out = Vec::new();
     let mut push = |fields: &Vec<&str>| {
         for n in [5usize, 6, 9] {
@@ -109,6 +116,21 @@ pub fn header_docs(format: &str) -> Vec<Doc> {
                 f[i] = b1;
                 push(&f);
             }
+            // one extreme field, one small field, all others zero (M maximal)
+            for j in 1..9 {
+                if j != i {
+                    for s in ["1", "2"] {
+                        let mut f: Vec<&str> = vec!["0"; 9];
+                        f[0] = "9223372036854775807";
+                        f[i] = b1;
+                        f[j] = s;
+                        if i == 0 {
+                            f[0] = b1;
+                        }
+                        push(&f);
+                    }
+                }
+            }
             for j in (i + 1)..9 {
                 for b2 in [big[4], big[6], big[9]] {
                     let mut f: Vec<&str> = vec!["1"; 9];
@@ -116,6 +138,24 @@ pub fn header_docs(format: &str) -> Vec<Doc> {
                     f[j] = b2;
                     push(&f);
                 }
+            }
+        }
+    }
+    // justice property sizes: their sum is a count the input merely declares
+    let sizes = ["0", "1", "2", "3", "9223372036854775808", "18446744073709551614", "18446744073709551615", "18446744073709551616"];
+    let pre: &[u8] = if format == "aag" { b"2\n" } else { b"" };
+    for s1 in sizes {
+        for s2 in sizes {
+            for s3 in ["", "2"] {
+                let n = if s3.is_empty() { 2 } else { 3 };
+                let mut v = format!("{format} 1 1 0 0 0 0 0 {n} 0\n").into_bytes();
+                v.extend_from_slice(pre);
+                v.extend_from_slice(format!("{s1}\n{s2}\n").as_bytes());
+                if !s3.is_empty() {
+                    v.extend_from_slice(format!("{s3}\n").as_bytes());
+                }
+                v.extend_from_slice(b"3\n2\n3\n");
+                out.push(Doc::new("justice-sizes", v));
             }
         }
     }
